@@ -54,6 +54,9 @@ const POOL: &[(&str, &str)] = &[
     ("Rgrp", "/(ab)|(c)/"),
     ("Rgrp2", "/(a+)|(b1)/"),
     ("Rgrp3", "/(c)|(1+)|(ba)/"),
+    // leading inline flags (the generated anchor has to stay outside of their scope)
+    ("Rml", "/(?m)b+$/"),
+    ("Ric", "/(?i)AB?/"),
 ];
 
 #[derive(Clone, Debug)]
@@ -283,6 +286,9 @@ fn show_toks(d: &Dump, input: &str, t: &[(usize, usize, usize)]) -> String {
 
 pub fn alphabet(g: &LexG) -> Vec<char> {
     let mut a = vec!['a', 'b', 'c', ' '];
+    if g.terms.iter().any(|t| matches!(&t.rec, Rec::Re(r) if r.contains("(?m"))) {
+        a.push('\n');
+    }
     if g.terms.iter().any(|t| match &t.rec {
         Rec::Lit(l) => l.contains('1'),
         Rec::Re(r) => r.contains("\\d") || r.contains("\\w") || r.contains('1'),
